@@ -220,6 +220,41 @@ func (e *TCPEnd) DeliverCuts(data []byte, cuts []int) {
 	}
 }
 
+// WriteCutsGap sends bytes from an actor end cut at the given offsets with a pause of gap between consecutive
+// segments (a slow or stalling sender): segment i arrives about i*gap after the first.
+func (e *TCPEnd) WriteCutsGap(data []byte, cuts []int, gap time.Duration) {
+	if e.closed || e.reset || e.wclosed {
+		return
+	}
+	e.Writes++
+	e.Written = append(e.Written, data...)
+	n := e.n
+	prev := 0
+	var at time.Duration
+	for _, c := range append(append([]int{}, cuts...), len(data)) {
+		if c <= prev || c > len(data) {
+			continue
+		}
+		seg := data[prev:c]
+		prev = c
+		e.arriveAfter(at+n.latency(), func(p *TCPEnd) {
+			if p.closed || p.reset {
+				return
+			}
+			if p.Proxy {
+				p.rbuf = append(p.rbuf, seg...)
+				n.event("tcp-arrive", e.Local.String(), p.Local.String(), e.ID, strconv.Itoa(len(seg)))
+			} else if p.OnData != nil {
+				p.OnData(seg)
+			}
+		})
+		at += gap
+	}
+	if gap > 0 {
+		n.Fired["tcp-slow-sender"]++
+	}
+}
+
 // arriveAfter schedules fn at the peer no earlier than anything scheduled before.
 func (e *TCPEnd) arriveAfter(lat time.Duration, fn func(p *TCPEnd)) {
 	k := e.n.K
